@@ -19,12 +19,12 @@ def _task(T, name, warm, props, shard):
     solver_task(T, name, warm, props, shard)
 
 
-NSHARD = {'C01': 6, 'C05': 2, 'C17': 3}
+NSHARD = {'C01': 6, 'C05': 2, 'C17': 3, 'C03': 1}
 
 
 for _n in SOLVERS:
     for _w in (False, True):
-        for _p in ('C01', 'C05', 'C17'):
+        for _p in ('C01', 'C05', 'C17', 'C03'):
             if _p == 'C05' and not _w:
                 continue
             for _s in range(NSHARD[_p]):
